@@ -20,6 +20,19 @@ T = "FIXTester"
 FINISHED = {"FILLED", "CANCELED", "REJECTED", "EXPIRED"}
 
 
+def _status_set(expr, subject_rx):
+    """FOrdStatus members a test accepts for the subject: `s == FOrdStatus.A or s == FOrdStatus.B` and `s in (FOrdStatus.A, ...)` alike."""
+    out = set(re.findall(subject_rx + r" == FOrdStatus\.(\w+)", unparse(expr)))
+    for x in ast.walk(expr):
+        if isinstance(x, ast.Compare) and len(x.ops) == 1 and isinstance(x.ops[0], ast.In) and re.fullmatch(subject_rx, unparse(x.left)):
+            coll = x.comparators[0]
+            if isinstance(coll, ast.Call) and coll.args and unparse(coll.func) in ("frozenset", "set", "tuple"):
+                coll = coll.args[0]
+            if isinstance(coll, (ast.Tuple, ast.List, ast.Set)):
+                out |= {e.attr for e in coll.elts if isinstance(e, ast.Attribute) and unparse(e.value) == "FOrdStatus"}
+    return out
+
+
 def run(ctx):
     repo = ctx.repo
     res = Resolver(repo)
@@ -138,10 +151,13 @@ def run(ctx):
     for n in fin_assert:
         for t, lab in g.guards(n.id, exc=False):
             if lab == "true":
-                fset |= set(re.findall(r"ord_status == FOrdStatus\.(\w+)", unparse(t)))
+                fset |= _status_set(t, r"ord_status")
         ok = True
     isf = repo.func("FIXNewOrderSingle.is_finished")
-    iset = set(re.findall(r"self\.status == FOrdStatus\.(\w+)", unparse(isf)))
+    iset = set()
+    for r_ in walk_no_nested(isf):
+        if isinstance(r_, ast.Return) and r_.value is not None:
+            iset |= _status_set(r_.value, r"self\.status")
     ctx.instance(R2, "fix_exec_report_msg[finished status => LeavesQty == 0]", ok and fset == iset == FINISHED,
                  f"the 'finished => LeavesQty == 0' assertion covers {sorted(fset)} while the order considers {sorted(iset)} finished", loc(er))
     if fin_assert:
